@@ -213,6 +213,14 @@ func (cx *Ctx) buildFuncUnitOnce(fn *ssa.Function, fc *FuncContract, blacklist m
 	if fc.HasAssigns {
 		fr.frameObligations(st, out, fc)
 	}
+	// an `at call` clause whose pattern matched no call site generated nothing: say so instead of passing silently
+	// (a misspelt pattern in a new contract, or a call that a change removed)
+	for i, c := range fc.AtCalls {
+		if len(u.patHits["at call "+c.Callee]) == 0 {
+			u.oblige(out, "at", fmt.Sprintf("%s/at:%s.unmatched", fr.fnLabel(), clauseName(c, i)), "false", fn.Pos(), c,
+				"`at call "+c.Callee+"` matches no call site of this function: "+c.Src)
+		}
+	}
 	u.checkPendingAuto()
 	return u, nil
 }
